@@ -68,6 +68,18 @@ def modules():
     f.set_outputs(t0, o0, e0, s0, mk, c, tg)
     m.declare_function("takes_empty", tys.PolyFuncType([], tys.FunctionType([tys.Option()], [tys.Tuple()])))
     out.append(("all-empty-general-sums", m.hugr))
+
+    # calls of a row-polymorphic function at rows of length 2 and 0: the static port sits after the *instantiated* value inputs
+    m = Module()
+    rv = tys.RowVariable(0, tys.TypeBound.Any)
+    decl = m.declare_function("row_id", tys.PolyFuncType([tys.ListParam(tys.TypeTypeParam(tys.TypeBound.Any))], tys.FunctionType.endo([rv])))
+    f = m.define_function("main", [tys.Bool, tys.Qubit])
+    b, q = f.inputs()
+    c2 = f.call(decl, b, q, instantiation=tys.FunctionType.endo([tys.Bool, tys.Qubit]), type_args=[tys.SequenceArg([tys.Bool.type_arg(), tys.Qubit.type_arg()])])
+    c0 = f.call(decl, instantiation=tys.FunctionType.endo([]), type_args=[tys.SequenceArg([])])
+    f.add_state_order(c2, c0)
+    f.set_outputs(c2[0], c2[1])
+    out.append(("row-poly-calls", m.hugr))
     return out
 
 
